@@ -66,6 +66,9 @@ func c18Build() *c18World {
 	}
 	w.f.Get("/p/{x}", h)
 	w.f.Get("/q", h)
+	// two bind parameters in one route: each is decoded on its own
+	w.f.Get("/p2/{x}/{y}", h)
+	w.f.Get("/p3/{y}/{x}", h)
 	return w
 }
 
@@ -299,6 +302,20 @@ func c18Param(w *c18World, raw string) (bad, kind, class string) {
 	}
 	if o.ParamInt != ai || o.ParamInt64 != a64 {
 		return fmt.Sprintf("ParamInt/ParamInt64 = %d/%d, expected %d/%d for %q", o.ParamInt, o.ParamInt64, ai, a64, want), "param/ParamInt", ""
+	}
+	// the same text next to a parameter whose text cannot be decoded (%zz stays as it is), on either side
+	for _, path := range []string{"/p2/" + raw + "/%zz", "/p3/%zz/" + raw, "/p2/" + raw + "/%2561"} {
+		w.obs = c18Obs{}
+		func() {
+			defer func() { pan = recover() }()
+			w.f.ServeHTTP(&c01Spy{hdr: http.Header{}}, newReq("GET", path))
+		}()
+		if pan != nil {
+			return fmt.Sprintf("panicked: %v (path %q)", pan, path), "panic", ""
+		}
+		if w.obs.Param != want || w.obs.ParamInt != ai {
+			return fmt.Sprintf("Param = %q / ParamInt = %d, expected %q / %d (request %q: two bind parameters, the other one %s)", w.obs.Param, w.obs.ParamInt, want, ai, path, path[strings.LastIndex(path, "%"):]), "param/next-to-another-parameter", ""
+		}
 	}
 	if _, err := strconv.Atoi(want); err == nil {
 		return "", "", "param:numeric"
